@@ -64,6 +64,7 @@ def tie_angle(theta, name):
   c, s = (1 - t * t) / (1 + t * t), 2 * t / (1 + t * t)
   sa, ca = atom_key('sin', (half,)), atom_key('cos', (half,))
   avn.FIELD['vals'][sa], avn.FIELD['vals'][ca] = s.fv, c.fv
+  avn.FIELD.setdefault('trig', {})[half.fv] = (s.fv, c.fv)
   S, C = 2 * s * c, c * c - s * s
   avn.ANGLES.append((S.fv, C.fv, Rat.lift(theta)))
   return uf('sin', half), uf('cos', half)
